@@ -7,6 +7,7 @@ mod c08;
 mod c08w;
 mod c12;
 mod c14;
+mod c14s;
 mod c15;
 mod c15w;
 mod c15d;
@@ -98,6 +99,7 @@ fn main() {
                 "c18_shlib" => ("C18", c18s::part_shlib(tier)),
                 "c17_names" => ("C17", c17e::part_names(tier)),
                 "c12_second" => ("C12", c12::part_second_lifecycle(tier)),
+                "c14_scope" => ("C14", c14s::part_scope(tier)),
                 "c19_regs" => ("C19", c19r::part_registers(tier, "C19")),
                 "c05_opt" => ("C05", c19r::part_registers(tier, "C05")),
                 "c17_objects" => ("C17", c18s::part_names_across_objects(tier)),
@@ -244,6 +246,7 @@ fn run_check(id: &str, tier: Tier) -> i32 {
             r.parts.push(c01::part_c14_regs(tier));
             r.parts.push(mt::part_c14_threads(tier));
             r.parts.push(simk::part_c14_sim(tier));
+            r.parts.push(c14s::part_scope(tier));
             finish(r)
         }
         "C15" => {
